@@ -566,7 +566,7 @@ def check_frames(op, fa, fb, how, cols):
         res = f(fa, fb, join=how, columns=cols)
     except Exception as e:
         return '%s_ on DataFrames raised %s: %s' % (op, type(e).__name__, str(e)[:100])
-    want_cols = sorted(set(ca) & set(cb)) if cols == 'ij' else sorted(set(ca) | set(cb))
+    want_cols = want_columns(ca, cb, cols)
     idx = A.expected_index([fa, fb], how)
     if not want_cols:
         return None
@@ -585,6 +585,48 @@ def check_frames(op, fa, fb, how, cols):
             vals = [nan if _isnan(v) else (PYOP[op](v, NEUTRAL[op]) if isinstance(x, pd.Series) else PYOP[op](NEUTRAL[op], v)) for v in sv]
         if not A.same_vals(list(map(float, res[c].values)), vals):
             return 'column %s: got %s, the statement gives %s' % (c, list(res[c].values), vals)
+    return None
+
+
+def want_columns(ca, cb, cols):
+    return sorted(set(ca) & set(cb) if cols == 'ij' else set(ca) | set(cb) if cols == 'oj' else ca if cols == 'lj' else cb)
+
+
+def _py_pow(x, y):
+    return 1.0 if (y == 0 or x == 1) else nan if (_isnan(x) or _isnan(y)) else x ** y
+
+
+XOPS = {'pow': _py_pow,
+        'gt': lambda x, y: not (_isnan(x) or _isnan(y)) and x > y, 'ge': lambda x, y: not (_isnan(x) or _isnan(y)) and x >= y,
+        'lt': lambda x, y: not (_isnan(x) or _isnan(y)) and x < y, 'le': lambda x, y: not (_isnan(x) or _isnan(y)) and x <= y,
+        'min': lambda x, y: nan if (_isnan(x) or _isnan(y)) else min(x, y), 'max': lambda x, y: nan if (_isnan(x) or _isnan(y)) else max(x, y)}
+
+
+def check_frames_x(name, fa, fb, how, cols):
+    """the statement for pow_ / a comparison / min_ / max_ of two DataFrames: joint index, column policy, cell (t, c) = the
+    pointwise function of the two cells, a cell that a frame does not have (no row, no such column) being NaN"""
+    ca, cb = list(fa.columns), list(fb.columns)
+    try:
+        res = _fn(name + '_')(fa, fb, join=how, columns=cols)
+    except Exception as e:
+        return '%s_ on DataFrames raised %s: %s' % (name, type(e).__name__, str(e)[:100])
+    want_cols = want_columns(ca, cb, cols)
+    idx = A.expected_index([fa, fb], how)
+    if not want_cols and name not in ('min', 'max'):
+        return None
+    if not isinstance(res, pd.DataFrame):
+        return 'result is a %s' % type(res).__name__
+    if sorted(res.columns) != want_cols or list(res.index) != list(idx):
+        return 'columns %s / index %s instead of %s / %s' % (list(res.columns), [t.day for t in res.index], want_cols, [t.day for t in idx])
+    f = XOPS[name]
+    for c in want_cols:
+        va = A.expected_series(fa[c], idx, None) if c in ca else [nan] * len(idx)
+        vb = A.expected_series(fb[c], idx, None) if c in cb else [nan] * len(idx)
+        want = [f(x, y) for x, y in zip(va, vb)]
+        got = list(res[c].values)
+        ok = (got == want) if name in ('gt', 'ge', 'lt', 'le') else A.same_vals(list(map(float, got)), [float(w) for w in want])
+        if not ok:
+            return 'column %s: got %s, the statement gives %s' % (c, got, want)
     return None
 
 
@@ -691,14 +733,14 @@ def laws(rng, tier, ctx):
         ca, cb = rng.choice([['a', 'b'], ['a', 'b', 'c'], ['b', 'c']]), rng.choice([['a', 'b'], ['b', 'c'], ['b', 'd'], ['c', 'a']])
         fa = pd.DataFrame({c: rand_series(rng, days_a, VALS).values for c in ca}, index=pd.DatetimeIndex([W.day(d) for d in days_a]), columns=ca, dtype=float)
         fb = pd.DataFrame({c: rand_series(rng, days_b, DIVS if op == 'div' else VALS).values for c in cb}, index=pd.DatetimeIndex([W.day(d) for d in days_b]), columns=cb, dtype=float)
-        how, cols = rng.choice(['ij', 'oj']), rng.choice(['ij', 'oj'])
+        how, cols = rng.choice(['ij', 'oj']), rng.choice(['ij', 'oj', 'ij', 'oj', 'lj', 'rj'])
         case = dict(tag='law-frames', lines=['(ops frames %s %s %s %s %s)' % (op, W.enc_frame(fa, S), W.enc_frame(fb, S), how, cols)])
         count += 1
         bad = check_frames(op, fa, fb, how, cols)
         if bad:
             yield Finding('violation', case, bad)
             continue
-        if op in ('add', 'mul'):       # theorems add_comm_frames / mul_comm_frames, reduce_left_frames
+        if op in ('add', 'mul') and cols in ('ij', 'oj'):       # theorems add_comm_frames / mul_comm_frames, reduce_left_frames
             f = _fn(op + '_')
             line = lambda a, b: '(ops binf %s %s %s %s N %s)' % (op, enc_in(a), enc_in(b), how, cols)
             res, rev = f(fa, fb, join=how, columns=cols), f(fb, fa, join=how, columns=cols)
@@ -713,6 +755,26 @@ def laws(rng, tier, ctx):
                 count += 1
                 if enc_out(lst) != enc_out(step):
                     yield Finding('violation', dict(tag='law-reduce-frames', lines=[line([fa, fb, fc], None)]), 'a list of frames is not reduced left to right')
+    # pow_, comparisons, min_ / max_ on frames (theorems powF_value, cmpF_value, mmF_two): default NaN, every column policy
+    for _ in range(n // 2):
+        name = rng.choice(['pow', 'gt', 'ge', 'lt', 'le', 'min', 'max'])
+        days, rel = rand_fdays(rng, 2)
+        cs, crel = rand_colsets(rng, 2)
+        fa = rand_frame(rng, days[0], POWB if name == 'pow' else VALS, cs[0])
+        fb = rand_frame(rng, days[1], POWE if name == 'pow' else VALS, cs[1])
+        how, cols = rng.choice(['ij', 'oj']), rng.choice(CHS)
+        line = ('(ops powf %s %s %s N %s)' % (enc_in(fa), enc_in(fb), how, cols) if name == 'pow' else
+                '(ops %s %s %s %s %s N %s)' % ('mmf' if name in ('min', 'max') else 'cmpf', name, enc_in(fa), enc_in(fb), how, cols))
+        count += 1
+        bad = check_frames_x(name, fa, fb, how, cols)
+        if bad:
+            yield Finding('violation', dict(tag='law-frames-x', lines=[line]), bad)
+            continue
+        if name in ('min', 'max'):     # np.minimum / np.maximum commute cell by cell (mmF_cell_comm); the header order is pandas' own
+            f = _fn(name + '_')
+            count += 1
+            if enc_out(f(fa, fb, join=how, columns=cols), True) != enc_out(f(fb, fa, join=how, columns=cols), True) and cols in ('ij', 'oj'):
+                yield Finding('violation', dict(tag='law-comm-mm', lines=[line]), '%s_ is not commutative on these frames' % name)
     # aggregates
     for _ in range(n // 2):
         g = rng.choice(['sum', 'mean', 'count'])
